@@ -4254,15 +4254,30 @@ class Macro:
                 MacroArgumentKind.LOOP: ("identifier_const",),
                 MacroArgumentKind.FINISHCODE: ("identifier_const",),
                 MacroArgumentKind.YIELDCODE: ("identifier_const",),
-                MacroArgumentKind.MATCH: ("regex", "end_expr", "concat_expr", "string_const", "string_case_const", "binary_regex", "binary_string_const"),
+                MacroArgumentKind.MATCH: ("regex", "end_expr", "concat_expr", "string_const", "string_case_const", "binary_regex", "binary_string_const", "identifier_const"),
                 MacroArgumentKind.INTEXPR: ("string_const", "bool_const", "number_const", "char_const", "identifier_const", *all_sum_expr_nodes)
             }[argspec.kind]
             if value.data not in allowed_types:
                 raise IllegalParseTree("Invalid argument type for argument " + argspec.name, value)
             if argspec.should_early_bind():
                 value = parse_ctx._lookup_named_entity(argspec.kind, value.children[0])
+            else:
+                value = ScopedArgument(value, len(parse_ctx.bound_argument_stack))
             bound_arguments[(argspec.get_lookup_type(), argspec.name)] = value
         return bound_arguments
+
+class ScopedArgument:
+    """
+    A late-bound (match/expr) macro argument: the parse tree that was passed plus the depth of the argument scope at its call site, so
+    that names inside it are resolved where the call was written and not captured by same-named arguments of the macro being expanded.
+    """
+
+    def __init__(self, tree: lark.Tree, scope_depth: int):
+        self.tree = tree
+        self.scope_depth = scope_depth
+        self.data = tree.data
+        self.children = tree.children
+        self.meta = tree.meta
 
 class MacroInstance: # dummy object used to track nested macros for diagnostics
                      # todo: could probably rewrite the argument stack in terms of this
@@ -4549,10 +4564,25 @@ class ParseCtx:
         else:
             raise NotImplementedError(type_obj.data)
 
+    def _in_argument_scope(self, argument: ScopedArgument, parse, *args, **kwargs):
+        """
+        Parse a late-bound macro argument with the argument scope of the place it was passed from
+        """
+
+        saved = self.bound_argument_stack
+        self.bound_argument_stack = saved[:argument.scope_depth]
+        try:
+            return parse(argument.tree, *args, **kwargs)
+        finally:
+            self.bound_argument_stack = saved
+
     def _parse_math_expr(self, expr: lark.Tree, into_storage: OutputStorage=None):
         """
         Parse a math expr [(something)]
         """
+
+        if isinstance(expr, ScopedArgument):
+            return self._in_argument_scope(expr, self._parse_math_expr, into_storage)
 
         if expr.data == "math_num":
             return ProgramData.imbue(ProgramData.imbue(LiteralIntegerExpr(self._convert_int(expr.children[0].value)), DTAG.SOURCE_LINE, expr.meta.line), DTAG.SOURCE_COLUMN, expr.meta.column)
@@ -4626,6 +4656,9 @@ class ParseCtx:
         Parse an integer type expr (also has bool/etc.)
         """
 
+        if isinstance(expr, ScopedArgument):
+            return self._in_argument_scope(expr, self._parse_integer_expr, into_storage=into_storage)
+
         BANNED_TYPES = ["end_expr", "concat_expr", "regex", "string_const", "string_case_const", "binary_regex", "binary_string_const"]
         if expr.data in BANNED_TYPES:
             raise IllegalParseTree("String-typed value encountered for integer-typed expression", expr)
@@ -4682,6 +4715,8 @@ class ParseCtx:
         """
         Parse a match expression into a match object
         """
+        if isinstance(expr, ScopedArgument):
+            return self._in_argument_scope(expr, self._parse_match_expr)
         if expr.data in ["string_const", "binary_string_const"]:
             actual_content = expr.children[0]
             if expr.data == "string_const":
